@@ -1,11 +1,11 @@
 (* C20 — STRL compilation (C++ back-end): every solution of the generated model is a valid
    space-time allocation.  Only statements; proofs are in Proofs/StrlP*.v.
    PARTIAL: see the header of Model/Strl.v for what is not modelled (WindowedChoose, MalleableChoose,
-   optimisation passes, DAG sharing); the optimality half of the property (max utility = brute-force
-   optimum, coarser discretisation only loses utility) is NOT proved. *)
+   optimisation passes, DAG sharing); of the optimality half of the property only `C20_coarse` is proved;
+   `max utility = brute-force optimum, with or without the pruning passes` is NOT proved. *)
 From Coq Require Import ZArith Bool List.
 Import ListNotations.
-From Verif Require Import Model.Val Model.Strl Proofs.StrlP Proofs.StrlP2 Proofs.StrlP3 Proofs.StrlP4.
+From Verif Require Import Model.Val Model.Strl Proofs.StrlP Proofs.StrlP2 Proofs.StrlP3 Proofs.StrlP4 Proofs.StrlP5.
 Open Scope Z_scope.
 
 (* capacity: for every tree whose leaf start times are congruent modulo the granularity, every
@@ -93,6 +93,17 @@ Theorem C20_lessthan_refuted :
     lt_okb e (populate pt now a e) = false.
 Proof. exact lessthan_refuted. Qed.
 Print Assumptions C20_lessthan_refuted.
+
+(* coarser discretisation: every solution of the model compiled with granularity m*g is a solution of
+   the model compiled with g, with the same objective value: coarsening can only lose utility; its
+   solutions are valid by C20_capacity *)
+Theorem C20_coarse : forall pt now g g' m e cs cs' a,
+  0 < g -> 0 < m -> g' = m * g ->
+  compile pt now g e = Ok cs -> compile pt now g' e = Ok cs' ->
+  wf_in pt g' e -> aligned g' e -> sat cs' a = true ->
+  sat cs a = true /\ objective_value cs a = objective_value cs' a.
+Proof. exact coarser_shrinks. Qed.
+Print Assumptions C20_coarse.
 
 (* the utility reported by populateResults is the value of the model objective *)
 Theorem C20_utility_is_objective : forall pt now g e cs a,
